@@ -105,6 +105,14 @@ func (b *backend) realID(box string, rank int) string {
 			return id
 		}
 	}
+	switch rank { // ids that name no message but mean something to other interfaces ("latest" is an alias of GetMessage only)
+	case 9100:
+		return "latest"
+	case 9101:
+		return ""
+	case 9102:
+		return "LATEST"
+	}
 	if b.kind == "mem" {
 		return strconv.Itoa(rank)
 	}
@@ -313,7 +321,31 @@ func storeNames(r *rand.Rand) []string {
 	pool := append([]string{}, collidePool()...)
 	pool = append(pool, "bob", "user@example.com", "We!rd#$%&'*=/?^_`{|}~", "[1.2.3.4]", "", "x.y", "UPPER")
 	r.Shuffle(len(pool), func(i, j int) { pool[i], pool[j] = pool[j], pool[i] })
-	return pool[:2+r.Intn(3)]
+	names := pool[:2+r.Intn(3)]
+	// mailbox names are exact byte strings to a store (the address policy canonicalises, POP3 / Lua / direct callers need not):
+	// names that differ only in case, or by a trailing blank or dot, are different mailboxes
+	if r.Intn(3) == 0 {
+		base := names[r.Intn(len(names))]
+		var v string
+		switch r.Intn(4) {
+		case 0:
+			v = strings.ToUpper(base)
+		case 1:
+			v = strings.ToLower(base)
+		case 2:
+			v = base + "."
+		default:
+			v = strings.Title(base)
+		}
+		dup := false
+		for _, n := range names {
+			dup = dup || n == v
+		}
+		if !dup {
+			names = append(names, v)
+		}
+	}
+	return names
 }
 
 func genBody(r *rand.Rand, big bool) []byte {
@@ -377,9 +409,17 @@ func genHistory(r *rand.Rand, p storeProfile, names []string, nOps int) []storeO
 		case x < 67:
 			ops = append(ops, storeOp{kind: "list", box: box})
 		case x < 75:
-			ops = append(ops, storeOp{kind: "seen", box: box, id: pickID()})
+			id := pickID()
+			if r.Intn(7) == 0 {
+				id = 9100 + r.Intn(3) // "latest", "", "LATEST": no message has such an id, also in a non-empty mailbox
+			}
+			ops = append(ops, storeOp{kind: "seen", box: box, id: id})
 		case x < 87:
-			ops = append(ops, storeOp{kind: "rm", box: box, id: pickID()})
+			id := pickID()
+			if r.Intn(9) == 0 {
+				id = 9100 + r.Intn(3)
+			}
+			ops = append(ops, storeOp{kind: "rm", box: box, id: id})
 		case x < 91:
 			ops = append(ops, storeOp{kind: "purge", box: box})
 		case x < 96:
